@@ -317,6 +317,7 @@ def run_builtins(ctx, classes, stats):
     results = C.pool_map(lambda w: builtin_worker(ctx, w, queue), list(range(nw)), workers=nw)
     stats["sweep_wall_s"] = round(time.time() - t_sweep, 1)
     stats["sweep_worker_s"] = [r.get("wall") for r in results]
+    stats["slowest_sweeps_ms"] = sorted((x for r in results for x in r.get("slow", [])), reverse=True)[:25]
     tuples = oks = errs = 0
     raw = []
     stats["sweeps_truncated"] = sum(r["truncated"] for r in results)
@@ -383,6 +384,7 @@ def builtin_worker(ctx, wid, queue):
                 res["ok"] += int(kv.get("ok", 0))
                 res["err"] += int(kv.get("err", 0))
                 res["tuples"] += cur[5] - cur[4]
+                res.setdefault("slow", []).append((int(kv.get("ms", 0)), "%s/%d" % (cur[0], cur[2])))
                 if kv.get("frames") != "0" or kv.get("stack") != "0":
                     res["events"].append(("residue", cur, -1, "frames=%s stack=%s" % (kv.get("frames"), kv.get("stack"))))
                 if kv.get("probe") != "same":
